@@ -26,6 +26,27 @@
    * C08_halfspace_nearest, C08_nearest_unique, C08_nearest_distance: the
      half-space projection formula; uniqueness / distance form of "nearest".
    * C08_pwl_feasible_fixed: re-export of the C04 theorem for the PWL calibrator.
+   * PWL calibrator, monotonicity +1/-1 WITH BOUNDS, no convexity, n >= 1 pieces
+     (section 9, Proofs/PWLDykstra.v; bound types NONE/BOUND/CLAMPED in all nine
+     combinations, both directions):
+     - C08_pwl_monotonicity_is_projection, C08_pwl_bounds_is_projection:
+       _project_monotonicity and _project_bounds_considering_monotonicity ARE the
+       Euclidean projections (variational inequality) onto {heights of the sign}
+       and onto {omin (<=|==) first output /\ last output (<=|==) omax} (mirrored
+       for decreasing), for EVERY input - no guard other than n >= 1 and no
+       refuted witness: the documented restriction "heights monotone" is not
+       needed; C08_pwl_bounds_step_shape gives the closed form (new bias, one
+       common shift of all heights);
+     - C08_pwl_sets_are_feasibility: the intersection of the two sets is exactly
+       `feasible` (every keypoint output within the bounds);
+     - C08_pwl_body_is_sweep: one body() iteration = one abstract sweep over two
+       slots; hence C08_pwl_fixpoint_nearest (a state whose stored changes are
+       reproduced is feasible and the nearest feasible column to the input),
+       C08_pwl_never_farther_from_feasible, C08_pwl_moves_summable,
+       C08_pwl_stalls, C08_pwl_stalled_is_fixpoint, C08_pwl_stalled_nearest;
+     - C08_pwl_finalize_feasible_fixed, C08_pwl_converged_result:
+       _finalize_constraints leaves a feasible iterate alone, so if the loop ends
+       in a fixpoint project_all_constraints RETURNS the nearest feasible column.
 
    * Convergence clause, the quantitative core of the Boyle-Dykstra argument
      (Proofs/DykstraBound.v abstract, Proofs/LatticeDykstraBound.v for the model;
@@ -62,7 +83,14 @@
    * nearest-point theorems for the group updates of range dominance and joint
      unimodality (the property claims the nearest point only for the other six
      families; for these two only feasible => fixed and properness are proved);
-   * C08_pwl_mono_bounds_nearest (PWL monotonicity-with-bounds limit) is absent;
+   * for the PWL loop likewise only fixpoint => nearest and the movement bounds
+     are proved, not the existence of the limit (same analytic gap; in general
+     the PWL iterates do not reach the nearest point at finite n, e.g.
+     decreasing, max 4 CLAMPED, min 0 BOUND, start (5; -3, 1, -3): nearest point
+     (4; -2, 0, -2), iterate 2 is (4; -20/9, 0, -20/9), Example
+     pwl_not_finite_example);
+     convexity != 0 (slots CONVEXITY_0/1) and monotonicity = 0 with bounds
+     (_approximately_project_bounds_only is not a projection) are outside;
    * C08_dykstra_fixpoint_nearest assumes that no constraint is listed twice
      (NoDup of the four constraint lists): duplicated constraints share one
      last_change slot in the code and are outside the theorem.
@@ -82,10 +110,14 @@
    asweep_fixpoint_hyps (abstract theorem) in Proofs/DykstraTheory.v,
    dykstra_bound_hyps (two half-spaces in Q^2: a strict and a tight instance of
    the movement bound) in Proofs/DykstraBound.v and never_farther_hyps_D (model,
-   strict and tight) in Proofs/LatticeDykstraBound.v. *)
+   strict and tight) in Proofs/LatticeDykstraBound.v; for the PWL theorems
+   pwl_fixpoint_nearest_hyps (3 pieces, increasing, BOUND/BOUND: both steps
+   move, fixpoint after one iteration, also at p_iters), pwl_never_farther_hyps
+   (strict and tight) and pwl_dec_clamped_hyps (decreasing, CLAMPED + BOUND) in
+   Proofs/PWLDykstra.v. *)
 From TFL Require Import Model.LatticeDykstra Proofs.DykstraTheory Proofs.LatticeDykstra.
 From TFL Require Import Proofs.DykstraBound Proofs.LatticeDykstraBound.
-From TFL Require Model.PWLProject Proofs.PWLProject.
+From TFL Require Model.PWLProject Proofs.PWLProject Proofs.PWLDykstra.
 Open Scope Q_scope.
 
 (* 1. Roll-back invariant: after n sweeps over ANY keyed maps, the current point
@@ -397,3 +429,151 @@ Theorem C08_dykstra_stalled_nearest : forall (c : dyk_cfg) (W0 : tens) (n : nat)
   forall z, dyk_feasible c z -> dist2 sh W0 (fst st) <= dist2 sh W0 z.
 Proof. exact dykstra_stalled_nearest. Qed.
 Print Assumptions C08_dykstra_stalled_nearest.
+
+(* 9. The PWL calibrator's loop (pwl_calibration_lib.project_all_constraints) for
+   monotonicity +1 / -1 WITH BOUNDS and no convexity.  Proofs/PWLDykstra.v.
+   Vocabulary (Model/PWLProject.v, Proofs/PWLProject.v, Proofs/PWLDykstra.v):
+   a kernel column is  bias :: heights  (n heights);  vof l i = nth i l 0 turns
+   it into a vector on the index list  pI n = [0 .. n]  (standard inner
+   product  ip (pI n));  hts n f = [f 1 .. f n].
+   pwl_mb c := has_bounds c = true /\ (p_mono c = 1 \/ p_mono c = -1) /\ p_conv c = 0.
+   PMv m n / CMv m n : _project_monotonicity on the heights part (bias kept) /
+     { f | every height has the sign of m }.
+   PBv c n / CBv c n : _project_bounds_considering_monotonicity on (f 0, hts n f) /
+     bounds_set (p_mono c) ... (f 0) (sum of heights), which is
+       increasing:  lo_ok cmin omin bias /\ hi_ok cmax omax (bias + sum heights)
+       decreasing:  hi_ok cmax omax bias /\ lo_ok cmin omin (bias + sum heights)
+     with lo_ok NONE = True, lo_ok BOUND lo x = (lo <= x), lo_ok CLAMPED lo x =
+     (x == lo), and hi_ok likewise: two half-spaces / hyperplanes in the
+     coordinates (bias, sum of heights).
+   wl st = d_bias st :: d_h st;  wd2 a b = sum_i (a_i - b_i)^2. *)
+Import Model.PWLProject Proofs.PWLProject Proofs.PWLDykstra.
+
+(* (1) _project_monotonicity IS the Euclidean projection onto the heights of the
+   configured sign (variational inequality + membership), any n *)
+Theorem C08_pwl_monotonicity_is_projection : forall (m : Z) (n : nat), m <> 0%Z ->
+  is_proj (pI n) (CMv m n) (PMv m n).
+Proof. exact mono_is_proj. Qed.
+Print Assumptions C08_pwl_monotonicity_is_projection.
+
+(* (2) _project_bounds_considering_monotonicity IS the Euclidean projection onto
+   CBv, for EVERY input (the heights need not be monotone), both directions and
+   all nine combinations NONE / BOUND / CLAMPED of the two bound types, n >= 1. *)
+Theorem C08_pwl_bounds_is_projection : forall (c : pwl_cfg) (n : nat), (1 <= n)%nat ->
+  is_proj (pI n) (CBv c n) (PBv c n).
+Proof. exact bounds_is_proj. Qed.
+Print Assumptions C08_pwl_bounds_is_projection.
+
+(* its shape: new bias bq, every height shifted by the same hd; in the
+   coordinates (bias, sum of heights) the result is in the set and satisfies the
+   variational inequality there *)
+Theorem C08_pwl_bounds_step_shape : forall m b h omin omax cmin cmax, (1 <= length h)%nat ->
+  exists bq hd,
+    fst (bounds_mono m b h omin omax cmin cmax) == bq /\
+    qleq (snd (bounds_mono m b h omin omax cmin cmax)) (map (fun x => x + hd) h) /\
+    bounds_set m omin omax cmin cmax bq (qsum h + qn (length h) * hd) /\
+    forall cb cs, bounds_set m omin omax cmin cmax cb cs ->
+      (b - bq) * (cb - bq) + (- hd) * (cs - (qsum h + qn (length h) * hd)) <= 0.
+Proof. exact bm_spec. Qed.
+Print Assumptions C08_pwl_bounds_step_shape.
+
+(* the intersection of the two sets is exactly feasibility of the column
+   (feasible: heights of the right sign, ALL keypoint outputs within the
+   bounds, clamped ends equal to the bound) *)
+Theorem C08_pwl_sets_are_feasibility : forall c n b h, pwl_mb c -> length h = n ->
+  (feasible c b h <-> (CBv c n (vof (b :: h)) /\ CMv (p_mono c) n (vof (b :: h)))).
+Proof. exact feasible_iff_vec. Qed.
+Print Assumptions C08_pwl_sets_are_feasibility.
+
+(* (3) one iteration of body() is one abstract Dykstra sweep over the two slots
+   (CBv, PBv, last BOUNDS change) and (CMv, PMv, last MONOTONICITY change),
+   pointwise up to == (the model reduces fractions).  vx st = vof (wl st);
+   veB st = vof (d_lb_bounds st :: d_lh_bounds st);  veM st = vof (0 :: d_lh_mono st);
+   seqv = same set, same map, stored change pointwise ==. *)
+Theorem C08_pwl_body_is_sweep : forall c n st, pwl_mb c -> dyk_wf n st ->
+  let st' := fst (dyk_body c st) in
+  let r := asweep (pslots c n (veB st) (veM st)) (vx st) in
+  veq (pI n) (vx st') (fst r) /\ Forall2 (seqv (pI n)) (pslots c n (veB st') (veM st')) (snd r).
+Proof. exact body_asweep. Qed.
+Print Assumptions C08_pwl_body_is_sweep.
+
+(* fixpoint => nearest.  reproduces c st: one more iteration from st leaves the
+   stored BOUNDS change (bias and heights part) and the stored MONOTONICITY
+   change unchanged.  Then the column is unchanged, FEASIBLE, and the
+   Euclidean-nearest feasible column to the start (b :: h), in the strong form
+   dist2(start, x) + dist2(x, z) <= dist2(start, z) for every feasible z. *)
+Theorem C08_pwl_fixpoint_nearest : forall (c : pwl_cfg) (n : nat) (b : Q) (h : list Q),
+  pwl_mb c -> (1 <= n)%nat -> length h = n -> forall k : nat,
+  let st := dyk_iter c k (dyk_init b h) in
+  reproduces c st ->
+  qleq (wl (fst (dyk_body c st))) (wl st) /\
+  feasible c (d_bias st) (d_h st) /\
+  (forall bz hz, length hz = n -> feasible c bz hz ->
+     wd2 (b :: h) (wl st) + wd2 (wl st) (bz :: hz) <= wd2 (b :: h) (bz :: hz)).
+Proof. exact pwl_fixpoint_nearest. Qed.
+Print Assumptions C08_pwl_fixpoint_nearest.
+
+(* Fejer-type bound: after ANY number of iterations the column is not farther
+   from ANY feasible column than the start was *)
+Theorem C08_pwl_never_farther_from_feasible : forall (c : pwl_cfg) (n : nat) (b : Q) (h : list Q),
+  pwl_mb c -> (1 <= n)%nat -> length h = n ->
+  forall (bz : Q) (hz : list Q) (k : nat), length hz = n -> feasible c bz hz ->
+  wd2 (wl (dyk_iter c k (dyk_init b h))) (bz :: hz) <= wd2 (b :: h) (bz :: hz).
+Proof. exact pwl_never_farther. Qed.
+Print Assumptions C08_pwl_never_farther_from_feasible.
+
+(* summable movement.  pwl_moves c st = squared movement of the BOUNDS step +
+   squared movement of the MONOTONICITY step of the iteration from st;
+   pwl_loop_moves c k st = that for iterations 1..k. *)
+Theorem C08_pwl_moves_summable : forall (c : pwl_cfg) (n : nat) (b : Q) (h : list Q),
+  pwl_mb c -> (1 <= n)%nat -> length h = n ->
+  forall (bz : Q) (hz : list Q) (k : nat), length hz = n -> feasible c bz hz ->
+  wd2 (wl (dyk_iter c k (dyk_init b h))) (bz :: hz) + qsum (pwl_loop_moves c k (dyk_init b h))
+    <= wd2 (b :: h) (bz :: hz).
+Proof. exact pwl_moves_summable. Qed.
+Print Assumptions C08_pwl_moves_summable.
+
+Theorem C08_pwl_stalls : forall (c : pwl_cfg) (n : nat) (b : Q) (h : list Q),
+  pwl_mb c -> (1 <= n)%nat -> length h = n ->
+  forall (bz : Q) (hz : list Q) (k : nat), length hz = n -> feasible c bz hz -> (1 <= k)%nat ->
+  exists j : nat, (j < k)%nat /\ pwl_moves c (dyk_iter c j (dyk_init b h)) * qnat k <= wd2 (b :: h) (bz :: hz).
+Proof. exact pwl_stalls. Qed.
+Print Assumptions C08_pwl_stalls.
+
+(* an iteration without movement reproduces the stored changes, hence ... *)
+Theorem C08_pwl_stalled_is_fixpoint : forall (c : pwl_cfg) (n : nat) (b : Q) (h : list Q),
+  pwl_mb c -> length h = n -> forall k : nat,
+  pwl_moves c (dyk_iter c k (dyk_init b h)) <= 0 -> reproduces c (dyk_iter c k (dyk_init b h)).
+Proof. exact pwl_stalled_reproduces. Qed.
+Print Assumptions C08_pwl_stalled_is_fixpoint.
+
+Theorem C08_pwl_stalled_nearest : forall (c : pwl_cfg) (n : nat) (b : Q) (h : list Q) (k : nat),
+  pwl_mb c -> (1 <= n)%nat -> length h = n ->
+  let st := dyk_iter c k (dyk_init b h) in
+  pwl_moves c st <= 0 ->
+  feasible c (d_bias st) (d_h st) /\
+  (forall bz hz, length hz = n -> feasible c bz hz ->
+     wd2 (b :: h) (wl st) + wd2 (wl st) (bz :: hz) <= wd2 (b :: h) (bz :: hz)).
+Proof. exact pwl_stalled_nearest. Qed.
+Print Assumptions C08_pwl_stalled_nearest.
+
+(* _finalize_constraints does nothing to a feasible iterate (any configuration) *)
+Theorem C08_pwl_finalize_feasible_fixed : forall c n b x, pwl_valid c n -> length x = n -> feasible c b x ->
+  fst (pwl_finalize c b x) == b /\ qleq (snd (pwl_finalize c b x)) x.
+Proof. exact finalize_fixed. Qed.
+Print Assumptions C08_pwl_finalize_feasible_fixed.
+
+(* ... hence: if the loop of project_all_constraints (p_iters c iterations) ends
+   in a fixpoint, the RETURNED column is that state, feasible, and the
+   Euclidean-nearest feasible column to the input *)
+Theorem C08_pwl_converged_result : forall (c : pwl_cfg) (n : nat) (b : Q) (h : list Q),
+  pwl_valid c n -> pwl_mb c -> length h = n ->
+  let st := dyk_iter c (p_iters c) (dyk_init b h) in
+  reproduces c st ->
+  qleq (pwl_project_col c (b :: h)) (wl st) /\
+  feasible c (d_bias st) (d_h st) /\
+  (forall bz hz, length hz = n -> feasible c bz hz ->
+     wd2 (b :: h) (pwl_project_col c (b :: h)) + wd2 (pwl_project_col c (b :: h)) (bz :: hz)
+       <= wd2 (b :: h) (bz :: hz)).
+Proof. exact pwl_converged_result. Qed.
+Print Assumptions C08_pwl_converged_result.
